@@ -38,7 +38,7 @@ INTERNED = ('S', 'D', 'arr', 'tf', 'ev', 'mesh')
 
 def nroutes(spec):
     t = spec[0]
-    return {'arr': 6, 'P': 4, 'S': 4, 'D': 4, 'V': 2, 'ev': 2, 'mesh': 3, 'fset': 3, 'dict': 3, 'fdict': 4, 'fmset': 3, 'tuple': 2, 'list': 2, 'method': 2, 'system': 2, 'tf': 2}.get(t, 1)
+    return {'nd': 3, 'arr': 6, 'P': 4, 'S': 4, 'D': 4, 'V': 2, 'ev': 2, 'mesh': 3, 'fset': 3, 'dict': 3, 'fdict': 4, 'fmset': 3, 'tuple': 2, 'list': 2, 'method': 2, 'system': 2, 'tf': 2}.get(t, 1)
 
 
 def _mod(m):
@@ -88,6 +88,16 @@ def build(spec, route=0):
             return d
         fd = types.frozendict(d)
         return types.frozendict(fd) if route == 3 else fd
+    if t == 'nd':
+        kind, shape, vals = spec[1], tuple(spec[2]), spec[3]
+        a = numpy.array(vals, dtype={'i': int, 'f': float, 'b': bool, 'c': complex}[kind]).reshape(shape)
+        if route == 1 and a.ndim:
+            big = numpy.zeros(a.shape[:-1] + (a.shape[-1] * 2,), dtype=a.dtype)
+            big[..., ::2] = a
+            a = big[..., ::2]
+        elif route == 2 and a.ndim == 2:
+            a = numpy.asfortranarray(a)
+        return types.frozenarray(a, copy=False) if a.ndim else a
     if t == 'arr':
         kind, shape, vals = spec[1], tuple(spec[2]), spec[3]
         dt = {'i': int, 'f': float, 'b': bool, 'c': complex}[kind]
@@ -247,9 +257,12 @@ def gen_leaf(rng):
         return ['complex', rng.choice([0.5, 1.5]), rng.choice([0.5, -2.0])]
     if r < 0.9:
         return ['ellipsis']
-    if r < 0.95:
+    if r < 0.93:
         return ['npint', rng.choice([3, 5, 100])]
-    return gen_arr(rng)
+    a = gen_arr(rng)
+    if rng.random() < 0.4:
+        a[0] = 'nd'
+    return a
 
 
 def gen_arr(rng):
@@ -267,6 +280,19 @@ def gen_arr(rng):
     return ['arr', kind, shape, vals]
 
 
+def _py_hashable(spec):
+    t = spec[0]
+    if t in ('list', 'dict', 'nd'):
+        return False
+    if t in ('tuple', 'fset', 'fmset'):
+        return all(_py_hashable(x) for x in spec[1])
+    if t == 'fdict':
+        return all(_py_hashable(v) for k, v in spec[1])
+    if t in ('P', 'S', 'D', 'V'):
+        return all(_py_hashable(x) for x in spec[2:])
+    return True
+
+
 def gen_spec(rng, depth=0):
     r = rng.random()
     if depth >= 2 or r < 0.3:
@@ -274,11 +300,15 @@ def gen_spec(rng, depth=0):
     if r < 0.42:
         return [rng.choice(['tuple', 'tuple', 'list']), [gen_spec(rng, depth + 1) for _ in range(rng.choice([0, 1, 2, 3]))]]
     if r < 0.5:
-        items = {core.canon(spec_key(s)): s for s in (gen_leaf(rng) for _ in range(rng.choice([0, 1, 2, 3]))) if s[0] not in ('arr',)}
+        items = {core.canon(spec_key(s)): s for s in (gen_leaf(rng) for _ in range(rng.choice([0, 1, 2, 3]))) if s[0] not in ('arr', 'nd')}
         return [rng.choice(['fset', 'fmset']), list(items.values())]
     if r < 0.58:
         ks = {core.canon(spec_key(s)): s for s in (gen_leaf(rng) for _ in range(rng.choice([0, 1, 2, 3]))) if s[0] in ('int', 'str', 'bytes', 'none')}
-        return [rng.choice(['dict', 'fdict']), [[k, gen_spec(rng, depth + 1)] for k in ks.values()]]
+        kind = rng.choice(['dict', 'fdict'])
+        items = [[k, gen_spec(rng, depth + 1)] for k in ks.values()]
+        if kind == 'fdict':
+            items = [[k, v if _py_hashable(v) else ['tuple', [['str', 'x']]]] for k, v in items]
+        return [kind, items]
     if r < 0.66:
         return gen_arr(rng)
     if r < 0.8:
@@ -287,7 +317,8 @@ def gen_spec(rng, depth=0):
         if cls == 'D':
             args = [['int', rng.choice([1, 2, 3])]] + ([['str', rng.choice(['q', 'r'])]] if rng.random() < 0.6 else [])
             if len(args) == 2 and rng.random() < 0.5:
-                args.append(['tuple', [gen_leaf(rng)]])
+                leaf = gen_leaf(rng)
+                args.append(['tuple', [leaf if _py_hashable(leaf) else ['int', 9]]])
         elif cls == 'V':
             args = [gen_plain_arg(rng)]
         else:
@@ -344,21 +375,22 @@ def near_misses(spec, rng):
             out.append(['tuple', [['tuple', spec[1][:1]], *spec[1][1:]]])
             if spec[1][0][0] == 'str' and spec[1][1][0] == 'str' and spec[1][1][1]:
                 out.append(['tuple', [['str', spec[1][0][1] + spec[1][1][1][:1]], ['str', spec[1][1][1][1:]], *spec[1][2:]]])
-    elif t == 'arr':
+    elif t in ('arr', 'nd'):
         kind, shape, vals = spec[1:4]
         n = len(vals)
+        out.append(['nd' if t == 'arr' else 'arr', kind, shape, vals])
         if kind == 'i':
-            out.append(['arr', 'f', shape, [float(v) for v in vals]])
+            out.append([t, 'f', shape, [float(v) for v in vals]])
             if all(v in (0, 1) for v in vals):
-                out.append(['arr', 'b', shape, [bool(v) for v in vals]])
+                out.append([t, 'b', shape, [bool(v) for v in vals]])
         if len(shape) == 1:
-            out.append(['arr', kind, [1, shape[0]], vals])
-            out.append(['arr', kind, [shape[0], 1], vals])
+            out.append([t, kind, [1, shape[0]], vals])
+            out.append([t, kind, [shape[0], 1], vals])
         if len(shape) == 2:
-            out.append(['arr', kind, shape[::-1], vals])
-            out.append(['arr', kind, [shape[0] * shape[1]], vals])
+            out.append([t, kind, shape[::-1], vals])
+            out.append([t, kind, [shape[0] * shape[1]], vals])
         if shape == []:
-            out.append(['arr', kind, [1], vals])
+            out.append([t, kind, [1], vals])
             out.append([{'i': 'int', 'f': 'float', 'b': 'bool'}.get(kind, 'none'), vals[0]] if kind in 'ifb' else ['none'])
     elif t in ('P', 'S', 'D', 'V'):
         out.append([t, 'b' if spec[1] == 'a' else 'a'] + spec[2:])
@@ -393,6 +425,22 @@ def near_misses(spec, rng):
     return out
 
 
+def _valid(spec):
+    '''Containers that need Python-hashable members only get such members (a generator constraint, not a property of nutils).'''
+    t = spec[0]
+    if t in ('tuple', 'list'):
+        return all(_valid(x) for x in spec[1])
+    if t in ('fset', 'fmset'):
+        return all(_py_hashable(x) and _valid(x) for x in spec[1])
+    if t == 'dict':
+        return all(_py_hashable(k) and _valid(v) for k, v in spec[1])
+    if t == 'fdict':
+        return all(_py_hashable(k) and _py_hashable(v) and _valid(v) for k, v in spec[1])
+    if t in ('P', 'S', 'D', 'V'):
+        return all(_py_hashable(x) and _valid(x) for x in spec[2:])
+    return True
+
+
 def gen_pool(rng, n):
     pool = []
     keys = set()
@@ -402,7 +450,7 @@ def gen_pool(rng, n):
             k = core.canon(spec_key(s))
         except Exception:
             return
-        if k not in keys and len(pool) < 10:
+        if k not in keys and len(pool) < 10 and _valid(s):
             keys.add(k)
             pool.append(s)
     while len(pool) < n:
@@ -474,7 +522,7 @@ def run_history(case):
             model.append(_hash(v))
         except TypeError as e:
             if 'unhashable' in str(e):
-                return dict(verdict='discard', vclass='unhashable-spec', detail=str(e)[:200])
+                return viol('E-unhashable', f'{s} cannot be hashed: {e}'[:300], case, [])
             raise
         del v
     gc.collect()
@@ -652,8 +700,8 @@ def run_xproc(case):
     log = []
     seen = {}
     for i, (s, a, b) in enumerate(zip(pool, here, there)):
-        if any(h.startswith(('TypeError', 'unhashable')) for h in a):
-            continue
+        if any(h.startswith(('TypeError', 'unhashable')) for h in a + b):
+            return viol('E-unhashable', f'{s}: {[h for h in a + b if h.startswith(("TypeError", "unhashable"))][0]}', case, log)
         errs = [h for h in a + b if ':' in h]
         if errs:
             return viol('E-build-raised', f'{s}: {errs[0]}', case, log)
